@@ -8,7 +8,8 @@ open Spine
 def showTargets (l : List (Nat × List Nat × Nat)) : String := toString (l.map fun (p, e, f) => s!"{p}:{showEnt e}/{f}")
 
 def tdInit (n : Nat) : Td.St :=
-  { reg := init, alive := (List.range n).map (· + 1), writable := writable, approval := [([1], 1), ([1], 2)] }
+  { reg := init, alive := (List.range n).map (· + 1), writable := writable, approval := [([1], 1), ([1], 2)],
+    approval2 := [([1], 1)], tree := remoteFeats }
 
 def showFired (s : Td.St) : String :=
   let l := (Td.fired s).map fun x => s!"{x.peer}:{x.ctr}" ++ (if s.alive.contains x.peer then "" else "!")
@@ -115,11 +116,14 @@ def answer (c : Td.Cfg) (s : Td.St) (ws : List String) : Td.Cfg × Td.St × Stri
   | ["binds", p] => match p.toNat? with
     | some p => (c, s, showL (Reg.bindsOf s.reg p))
     | none => (c, s, "bad-op")
-  | ["cfg", a, b', c', d, t, e] => match nats [a, b', c', d, t, e] with
-    | some [a, b', c', d, t, e] =>
+  | ["cfg", a, b', c', d, t, e, y] => match nats [a, b', c', d, t, e, y] with
+    | some [a, b', c', d, t, e, y] =>
       ({ reg := { delSubByDevice := bit a, delBindByDevice := bit b', unbindDisjunct := bit c', dropBindsAnyPeer := bit d },
-         timersSurvive := bit t, entityKeepsApprovals := bit e }, s, "cfg")
+         timersSurvive := bit t, entityKeepsApprovals := bit e, tallySurvivesDrop := bit y }, s, "cfg")
     | _ => (c, s, "bad-op")
+  | ["reconnect", p] => match p.toNat? with
+    | some p => (c, Td.reconnect s p, "done")
+    | none => (c, s, "bad-op")
   | ["peers", n] => match n.toNat? with
     | some n => (c, tdInit n, "reset")
     | none => (c, s, "bad-op")
